@@ -810,14 +810,16 @@ func CancelQuery(qid uint64) {
 	rQuery.rqsLock.Unlock()
 
 	waitingQueriesLock.Lock()
-	defer waitingQueriesLock.Unlock()
 	for i, wsData := range waitingQueries {
 		if wsData.qid == qid {
 			waitingQueries = append(waitingQueries[:i], waitingQueries[i+1:]...)
 			break
 		}
 	}
+	waitingQueriesLock.Unlock()
 
+	// Not under waitingQueriesLock: the send blocks when the state channel is full (a listener that stopped
+	// reading), and the admission loop needs that lock for every other query.
 	rQuery.StateChan <- &QueryStateChanData{StateName: CANCELLED, Qid: qid}
 }
 
